@@ -37,6 +37,8 @@ def run(rep, tier):
     common.guarded(rep, "C15.2", c15.c15_2, rep, ix)       # a variable named like a parameter is still a variable
     common.guarded(rep, "C15.1", c15.c15_1, rep, ix, True)       # the p-type filter drops exactly p<digits> names from the reported parameters
     c05.aliasing_lint(rep, ix)
+    # the parameters a template reports are those of its own script: the module tables hold nothing of an earlier load (shared with C12)
+    c05.shared_tables(rep, ix, M.G)
     # the instantiated program is a deep copy (shared with C13)
     from . import c13
     E = common.eff(rep)
